@@ -20,6 +20,7 @@
 #include <unistd.h>
 
 #include <algorithm>
+#include <limits>
 #include <array>
 #include <cstring>
 #include <random>
@@ -149,6 +150,9 @@ int Util::parseSizeOrPercent(
       // compat - a bare number is interpreted as megabytes
       v = std::stoll(input, &end_pos);
       if (end_pos == input.length()) {
+        if (v < 0 || v > (std::numeric_limits<int64_t>::max() >> 20)) {
+          return -1;
+        }
         *output = v << 20;
         return 0;
       }
